@@ -36,7 +36,7 @@ func (c *Ctx) run(name string, in map[string]string) {
 // the library's goroutines would end the whole run without naming the input.  They are executed in a child process each;
 // the child's result is merged, and a child that dies is reported as a violation with the input that killed it.
 var isolatedRunners = map[string]bool{"wireparse": true, "sendwire": true, "slowpeer": true, "capreconnect": true, "tagsqueue": true, "capsharedconfig": true,
-	"sensitivedropped": true, "sensitivefault": true, "saslreconnect": true, "sasllate": true, "stsupgrade": true, "stsdialfail": true, "ststls": true, "ststlsclose": true, "pingrepeat": true, "ratereconnect": true,
+	"sensitivedropped": true, "sensitivefault": true, "saslreconnect": true, "sasllate": true, "stsupgrade": true, "stsdialfail": true, "ststls": true, "ststlsclose": true, "pingrepeat": true, "preamblewire": true, "stsshared": true, "ratereconnect": true,
 	"stsrebase": true, "stsfailedthenclose": true, "linelenreconnect": true, "idreconnect": true, "cmdwire": true, "globalformat": true}
 
 func (c *Ctx) runIsolated(name string, in map[string]string) {
@@ -178,8 +178,12 @@ func (c *Ctx) compare(name string, in map[string]string, impl string, modelOp, s
 // arguments, so the second answer is the first (a remembered "last pattern", a memo, a reused buffer would show here); the
 // SECOND answer is the one compared with the model and the specification.
 func (c *Ctx) twice(name string, in map[string]string, f func() string) string {
-	a := f()
-	b := f()
+	a := safely(f)
+	b := safely(f)
+	if strings.HasPrefix(a, "panic") || strings.HasPrefix(b, "panic") {
+		c.R.Violation(name+".panic", hexIn(in), "first call: "+a+", second call: "+b, "", "the function panicked")
+		return b
+	}
 	if a != b {
 		c.R.Violation(name+".stateful", hexIn(in), "first call: "+a+", second call: "+b, a, "the same call made twice in a row gave two different answers")
 	}
